@@ -655,6 +655,8 @@ def sym_mod(a, b):
 
 
 _SQRT_F = z3.Function("sqrt", z3.RealSort(), z3.RealSort())
+_FLOOR_F = z3.Function("floor", z3.RealSort(), z3.IntSort())
+_CEIL_F = z3.Function("ceil", z3.RealSort(), z3.IntSort())
 
 
 class functional_witnesses:
@@ -737,6 +739,12 @@ def sym_floor(x):
     key = ("floor", z3.simplify(t).get_id())
     if key in memo:
         return memo[key][0]
+    if cur().__dict__.get("fn_witness"):
+        ts = z3.simplify(t)
+        r = _FLOOR_F(ts)          # functional form (see sym_sqrt): stays right when a summation variable inside t is substituted
+        define(z3.And(z3.ToReal(r) <= ts, ts < z3.ToReal(r) + 1))
+        memo[key] = (Sym(r), t)
+        return Sym(r)
     r = _witness("floor", True, lambda v: z3.And(z3.ToReal(v) <= t, t < z3.ToReal(v) + 1))
     memo[key] = (Sym(r), t)
     return Sym(r)
